@@ -38,6 +38,17 @@ func (ex *Exec) functypeContract(caller *ssa.Function, v ssa.Value) *Contract {
 			return c
 		}
 	}
+	// by (struct type, field) when the value was loaded from a field
+	if u, ok := v.(*ssa.UnOp); ok {
+		if fa, ok := u.X.(*ssa.FieldAddr); ok {
+			stT := deref(fa.X.Type())
+			if s, ok := structOf(stT); ok {
+				if c := ex.ct.Funcs["functype:field:"+typeKey(stT)+"."+s.Field(fa.Field).Name()]; c != nil {
+					return c
+				}
+			}
+		}
+	}
 	t := v.Type()
 	if n, ok := t.(*types.Named); ok {
 		if c := ex.ct.Funcs["functype:"+typeKey(n)]; c != nil {
@@ -186,7 +197,7 @@ func (ex *Exec) applyContract(st *State, c *Contract, args []*Val, sig *types.Si
 		ex.fail("contract %s has %d parameter names but the call passes %d values", c.Key, len(names), len(args))
 	}
 	vars := map[string]*Val{}
-	if isFT && strings.Count(c.Key, ":") >= 2 {
+	if isFT && strings.Count(c.Key, ":") >= 2 && !strings.HasPrefix(c.Key, "functype:field:") {
 		// contract of a function-typed parameter: the enclosing function's parameters are in scope
 		fr := st.frame
 		for _, p := range fr.fn.Params {
@@ -224,7 +235,7 @@ func (ex *Exec) applyContract(st *State, c *Contract, args []*Val, sig *types.Si
 			pcond = mkOr(cs...)
 		}
 		switch {
-		case anyDefers(st):
+		case anyDefers(st) || len(ex.top.XEnsures) > 0:
 			st2 := st.clone()
 			st2.assume(pcond)
 			ex.branch(st2, "panic-in:"+calleeShort)
@@ -232,6 +243,9 @@ func (ex *Exec) applyContract(st *State, c *Contract, args []*Val, sig *types.Si
 			pre2 := &snapshot{st2, pre.heap}
 			env2.old = pre2
 			ex.havoc(st2, env2, c)
+			for _, e := range c.XEnsures {
+				st2.assume(env2.evalBool(e))
+			}
 			pv := ex.freshConst(st2, "panicval", SIface)
 			st2.assume(app(SBool, ">", iTag(pv), tZero))
 			ex.doPanic(st2, pv, in, "panic in "+calleeShort, tTrue)
@@ -443,6 +457,15 @@ func (ex *Exec) resolveTarget(env *SpecEnv, e Expr, src string) []target {
 				}
 			}
 			ex.fail("modifies %s: allelems needs a slice type", src)
+		case "allentries":
+			if te, ok := e.Args[0].(*EIdent); ok {
+				if t := ex.ld.resolveType(te.Name, env.pkg); t != nil {
+					if mt, ok := t.Underlying().(*types.Map); ok {
+						return ex.mapTargets(mt, nil)
+					}
+				}
+			}
+			ex.fail("modifies %s: allentries needs a named map type", src)
 		case "entries":
 			m := env.eval(e.Args[0])
 			mt, ok := m.Typ.Underlying().(*types.Map)
@@ -875,6 +898,12 @@ func (ex *Exec) unwind(st *State) {
 	// the function under contract panics on this path
 	site := curPanicSite[st]
 	delete(curPanicSite, st)
+	if len(ex.top.XEnsures) > 0 {
+		env := &SpecEnv{ex: ex, st: st, vars: ex.topVars(st), cur: st, old: entryView{st}, pkg: ex.topFn.Pkg.Pkg, nextOld: st.next0}
+		for i, e := range ex.top.XEnsures {
+			ex.obligeClause(st, env, "xensures", clauseLabel(e, i)+"@"+site.label, e, ex.clauseTags(e, ex.top.Tags), site.pos)
+		}
+	}
 	switch {
 	case ex.top.MayPanic:
 	case len(ex.top.Panics) > 0:
